@@ -18,8 +18,8 @@
 (*                                                                           *)
 (* Earlier per-stage specifications are reused, not restated: the merge of    *)
 (* four children (placement, reduction of the defined members, "not stored    *)
-(* when entirely undefined", "nothing read, nothing written when no child     *)
-(* exists") is Cascade!MergeTile; positions are Quadtree; the sampling write  *)
+(* when entirely undefined", "no child exists: nothing written, an earlier     *)
+(* file removed") is Cascade!MergeTile; positions are Quadtree; the sampling write  *)
 (* rule (clobber / update, all-undefined tile not stored) is the rule of      *)
 (* SampleLayer!Visit restated over Cascade's tile records (SampleLayer lives  *)
 (* on the TOAST lattice, which the life cycle does not need); the URL         *)
@@ -29,23 +29,38 @@
 (* exact rational or undefined), `out` (the .png tiles: a pixel is the byte    *)
 (* floor(255 * sqrt(clip01(v))), undefined -> 0), `wtml` (index_rel.wtml or    *)
 (* nothing), and the user's session object `bld` (Builder: format, recorded    *)
-(* tile levels).  Everything else (base, cons, fresh, removed, rebased,         *)
-(* wtml.cur, bld.sampled) is a GHOST: what a user can derive from the command  *)
-(* history alone, without looking into the directory.  The theorems say that   *)
-(* this bookkeeping is sound (what it promises holds in the directory) and     *)
-(* name what is NOT promised (stale levels, orphan parents, stale outputs,     *)
-(* a WTML that no longer describes the files).                                 *)
+(* tile levels).  Everything else (base, cons, fresh, removed, pruned,         *)
+(* rebased, wtml.cur, bld.sampled) is a GHOST: what a user can derive from the *)
+(* command history alone, without looking into the directory.  The theorems    *)
+(* say that this bookkeeping is sound (what it promises holds in the           *)
+(* directory) and name what is NOT promised (stale levels, orphan parents      *)
+(* BEFORE the next cascade, stale outputs, a WTML that no longer describes     *)
+(* the files).                                                                 *)
 (*                                                                           *)
-(* Deliberate deviation kept from the code (DESIGN.md section 9): a cascade    *)
-(* does not touch a parent none of whose children exists, so a parent whose    *)
-(* children have all disappeared survives with its old pixels (an ORPHAN) and  *)
-(* is averaged into its own parent.  Cascade(s) is therefore split into        *)
-(* CascadeClean (result = the ideal rule "parent exists iff some child exists  *)
-(* and the merge is not entirely undefined") and CascadeLeavesOrphans (the     *)
-(* as-built result differs from the ideal one); IdealIffNoOrphan is the        *)
-(* weaker statement that does hold.  The same shape one stage later:           *)
-(* Transform skips positions without a data tile, so an output tile whose      *)
-(* data tile has disappeared survives (TransformClean / TransformLeavesStale). *)
+(* The cascade stage is the ideal rule: TileMerger.walk_callback removes the   *)
+(* tile of a position none of whose four children exists, so after Cascade(s)  *)
+(* a tile above level s exists iff a tile of level s lies below it, and it is  *)
+(* the reduction of exactly its children.  A parent whose children have all    *)
+(* disappeared (an ORPHAN: left by a clobbering re-sample over a smaller       *)
+(* region, by a sample at another depth, or found above an empty start level)  *)
+(* is REMOVED by the next cascade that visits it; the walk visits children     *)
+(* first, so a chain of orphans is removed bottom-up, up to the root.  (Until  *)
+(* the repair "a re-cascade left a parent tile in place after all of its       *)
+(* children had disappeared" the code kept such a parent and averaged it into  *)
+(* its own parent; this module then carried the action CascadeLeavesOrphans    *)
+(* and the weaker theorem IdealIffNoOrphan.)  Cascade(s) is one rule, named    *)
+(* twice for the bookkeeping: CascadeClean (no file disappears) and            *)
+(* CascadeRemovesOrphans (some tile above level s had no tile of level s below *)
+(* it: data tile files disappear, ghost `pruned`).  What follows from the      *)
+(* ideal rule and a user may not expect: a cascade started BELOW the data      *)
+(* (Sample(1); Cascade(2)) finds an empty start level and erases the pyramid,  *)
+(* and an OUTPUT tile of a removed data tile goes stale exactly as after a     *)
+(* shrinking Sample.                                                           *)
+(*                                                                           *)
+(* Deliberate deviation kept from the code (DESIGN.md section 9), one stage    *)
+(* later: Transform skips positions without a data tile, so an output tile     *)
+(* whose data tile has disappeared survives (TransformClean: the result is the *)
+(* ideal "output mirrors data" / TransformLeavesStale: it is not).             *)
 EXTENDS Quadtree, Integers, TLC
 
 CONSTANTS T,          \* tile edge in abstract pixels (a power of two)
@@ -104,10 +119,11 @@ SampleResult(dir, cmd) ==
 \* ---------------------------------------------------------------- the cascade
 KidTiles(dir, p) == <<dir[Kid(p, 0)], dir[Kid(p, 1)], dir[Kid(p, 2)], dir[Kid(p, 3)]>>
 HasKid(dir, p) == p[1] < MaxDepth /\ \E i \in 0..3 : dir[Kid(p, i)].ex
-\* TileMerger.walk_callback as built: no existing child -> early return, the old file stays
+\* TileMerger.walk_callback (the shared merge rule; `old` is the file found at the position)
 MergeAsBuilt(kids, old) == C!MergeTile("Float", FALSE, FALSE, kids, old)
-\* the rule a reader of the documentation expects: no existing child -> no parent
-MergeIdeal(kids) == C!MergeTile("Float", FALSE, FALSE, kids, Absent)
+\* the rule a reader of the documentation expects, stated here and not taken from the shared module:
+\* no existing child -> no parent; otherwise the reduction of the four children (not stored when entirely undefined)
+MergeIdeal(kids) == IF \A i \in 1..4 : ~kids[i].ex THEN Absent ELSE C!MergeTile("Float", FALSE, FALSE, kids, Absent)
 
 \* levels n, n-1, .., 0 recomputed, each from the (already recomputed) level below it
 RECURSIVE CascadeDown(_, _, _)
@@ -159,22 +175,25 @@ VARIABLES data,     \* Pos -> data tile (.npy file) or Absent
           cons,     \* levels known to be consistent with the level below them
           fresh,    \* levels whose output tiles are known to be the transform of the data tiles
           removed,  \* some Sample removed a tile file (a clobbering re-sample over a smaller region)
-          rebased   \* some Sample changed the sampled depth
-vars == <<data, out, wtml, bld, n, base, cons, fresh, removed, rebased>>
-\* either way tiles may be left whose leaves are gone: orphans, deeper leftovers, stale outputs
+          rebased,  \* some Sample changed the sampled depth
+          pruned    \* some Cascade removed a tile file (an orphan, or everything above an empty start level)
+vars == <<data, out, wtml, bld, n, base, cons, fresh, removed, rebased, pruned>>
+\* a Sample shrank the pyramid: tiles may be left whose leaves are gone (orphans until the next cascade, deeper leftovers)
 shrunk == removed \/ rebased
+\* some data tile file has been deleted: an output tile written for it earlier is stale now
+lost == removed \/ pruned
 
 NoWtml == [ex |-> FALSE, levels |-> 0, ftype |-> "", cur |-> FALSE]
 Init == /\ data = [p \in Pos |-> Absent]
         /\ out = [p \in Pos |-> OAbsent]
         /\ wtml = NoWtml
         /\ bld = [fmt |-> DataFmt, levels |-> 0, sampled |-> FALSE]        \* Builder(): ImageSet().tile_levels = 0
-        /\ n = 0 /\ base = -1 /\ cons = {} /\ fresh = {} /\ removed = FALSE /\ rebased = FALSE
+        /\ n = 0 /\ base = -1 /\ cons = {} /\ fresh = {} /\ removed = FALSE /\ rebased = FALSE /\ pruned = FALSE
 
 \* a new PyramidIO + Builder over the same directory; the old object is dropped
 NewBuilder(cmd) == /\ cmd.op = "NewBuilder"
                    /\ bld' = [fmt |-> cmd.fmt, levels |-> 0, sampled |-> FALSE]
-                   /\ UNCHANGED <<data, out, wtml, base, cons, fresh, removed, rebased>>
+                   /\ UNCHANGED <<data, out, wtml, base, cons, fresh, removed, rebased, pruned>>
 
 \* sampling float data needs a pyramid opened in the data format (a png PyramidIO cannot store F16x3 / F32 tiles)
 Sample(cmd) == /\ cmd.op = "Sample" /\ bld.fmt = DataFmt
@@ -186,40 +205,41 @@ Sample(cmd) == /\ cmd.op = "Sample" /\ bld.fmt = DataFmt
                /\ removed' = (removed \/ \E p \in Pos : data[p].ex /\ ~data'[p].ex)
                /\ rebased' = (rebased \/ (base # -1 /\ base # cmd.d))
                /\ wtml' = [wtml EXCEPT !.cur = FALSE]
-               /\ UNCHANGED out
+               /\ UNCHANGED <<out, pruned>>
 
-\* the cheap tests for the two deviations (CascadeOperator / TransformOperator state that they are exact):
-\* some tile above the start level has no descendant left on the start level
+\* the cheap tests for the two named cases (CascadeOperator / TransformOperator state that they are exact):
+\* some tile above the start level has no tile of the start level below it (the cascade will remove it)
 StaleAbove(dir, s) == \E p \in Pos : p[1] < s /\ dir[p].ex /\ ~\E l \in Level(s) : InSub(l, p) /\ dir[l].ex
 \* some output tile on the transformed levels has no data tile any more
 StaleOut(o, dir, s) == \E p \in Pos : p[1] <= s /\ o[p].ex /\ ~dir[p].ex
 
 \* cascading is done on the data format (cascading the output format is outside this model)
-CascadeStep(cmd, deviates) ==
-    /\ cmd.op = "Cascade" /\ bld.fmt = DataFmt /\ StaleAbove(data, cmd.d) = deviates
+CascadeStep(cmd, prunes) ==
+    /\ cmd.op = "Cascade" /\ bld.fmt = DataFmt /\ StaleAbove(data, cmd.d) = prunes
     /\ data' = CascadeResult(data, cmd.d)
     /\ cons' = cons \cup 0..(cmd.d - 1)
     /\ fresh' = fresh \ 0..(cmd.d - 1)
+    /\ pruned' = (pruned \/ \E p \in Pos : data[p].ex /\ ~data'[p].ex)
     /\ UNCHANGED <<out, wtml, bld, base, removed, rebased>>
-CascadeClean(cmd) == CascadeStep(cmd, FALSE)              \* the result is the ideal rule's result
-\* the deviation: some parent keeps (or some ancestor averages in) pixels whose leaves no longer exist
-CascadeLeavesOrphans(cmd) == CascadeStep(cmd, TRUE)
+CascadeClean(cmd) == CascadeStep(cmd, FALSE)              \* tiles are written or rewritten, no file disappears
+\* tiles whose leaves no longer exist are removed, children before parents (PrunesExactlyWhenStale: pruned' holds)
+CascadeRemovesOrphans(cmd) == CascadeStep(cmd, TRUE)
 
 TransformStep(cmd, deviates) ==
     /\ cmd.op = "Transform" /\ StaleOut(out, data, cmd.d) = deviates
     /\ out' = TransformResult(out, data, cmd.d)
     /\ fresh' = fresh \cup 0..cmd.d
-    /\ UNCHANGED <<data, wtml, bld, base, cons, removed, rebased>>
+    /\ UNCHANGED <<data, wtml, bld, base, cons, removed, rebased, pruned>>
 TransformClean(cmd) == TransformStep(cmd, FALSE)          \* the output pyramid mirrors the data pyramid on levels 0 .. s
 \* the deviation: an output tile whose data tile has disappeared is left in place
 TransformLeavesStale(cmd) == TransformStep(cmd, TRUE)
 
 WriteWtml(cmd) == /\ cmd.op = "WriteWtml"
                   /\ wtml' = [ex |-> TRUE, levels |-> bld.levels, ftype |-> bld.fmt, cur |-> bld.sampled]
-                  /\ UNCHANGED <<data, out, bld, base, cons, fresh, removed, rebased>>
+                  /\ UNCHANGED <<data, out, bld, base, cons, fresh, removed, rebased, pruned>>
 
 Do(cmd) == /\ n < MaxCmds /\ n' = n + 1
-           /\ \/ NewBuilder(cmd) \/ Sample(cmd) \/ CascadeClean(cmd) \/ CascadeLeavesOrphans(cmd)
+           /\ \/ NewBuilder(cmd) \/ Sample(cmd) \/ CascadeClean(cmd) \/ CascadeRemovesOrphans(cmd)
               \/ TransformClean(cmd) \/ TransformLeavesStale(cmd) \/ WriteWtml(cmd)
 Next == \E cmd \in Commands : Do(cmd)
 Spec == Init /\ [][Next]_vars
@@ -235,38 +255,54 @@ TypeOK == /\ base \in -1..MaxDepth /\ cons \subseteq 0..(MaxDepth - 1) /\ fresh 
           /\ \A p \in Pos : (data[p].ex => DOMAIN data[p].px = Idx) /\ (out[p].ex => DOMAIN out[p].px = Idx)
 
 \* ---- Sample; Cascade: which tiles are guaranteed consistent
-\* (1) a promised level is the reduction of exactly its children wherever a child exists (ideal = as-built there)
-ConsistentLevels == \A lv \in cons : \A p \in Level(lv) : HasKid(data, p) => data[p] = MergeIdeal(KidTiles(data, p))
+LeafBelow(p, s) == \E l \in Level(s) : InSub(l, p) /\ data[l].ex
+\* (1) a promised level is the ideal merge of its children: the reduction of exactly the existing ones, and NO tile
+\*     where no child exists
+ConsistentLevels == \A lv \in cons : \A p \in Level(lv) : data[p] = MergeIdeal(KidTiles(data, p))
 \* (2) stored tiles are never entirely undefined, at any level, after any sequence
 NeverStoredUndefined == \A p \in DataPos : ~AllU(data[p].px)
-\* (3) existence, as built: on the promised levels a tile with a child exists; a tile WITHOUT a child may exist too
-ExistenceAsBuilt == \A lv \in cons : \A p \in Level(lv) : HasKid(data, p) => data[p].ex
-\* (4) the promised levels equal the ideal pyramid over level ConsDepth exactly when no childless tile sits on them
-IdealIffNoOrphan == LET s == ConsDepth
-                        id == IdealResult(data, s)
-                    IN (\A p \in Pos : data[p] = id[p]) <=> (\A p \in Pos : p[1] < s => ~Orphan(p))
-\* (5) when nothing ever shrank (one sampled depth, no file removed by a re-sample) there are no orphans, no tiles
-\*     deeper than the sampled depth, and therefore - after Sample(d) ... Cascade(d) - levels 0 .. d are exactly the
-\*     ideal pyramid of the leaves: every tile above d is the reduction of exactly its children, a tile exists iff
-\*     a leaf below it exists
+\* (3) existence: on the promised levels a tile exists iff one of its children does
+ExistenceIdeal == \A lv \in cons : \A p \in Level(lv) : data[p].ex <=> HasKid(data, p)
+\* (4) after Cascade(s) no tile above level s is an orphan, whatever the directory held before (no premise about
+\*     the history: until the repair of walk_callback this was refuted by a clobbering re-sample over a smaller region)
+NoOrphanAfterCascade == \A lv \in cons : \A p \in Level(lv) : ~Orphan(p)
+\*     ... and the promised levels are the ideal pyramid over level ConsDepth
+PromisedLevelsIdeal == LET s == ConsDepth
+                           id == IdealResult(data, s)
+                       IN /\ \A p \in Pos : data[p] = id[p]
+                          /\ \A p \in Pos : p[1] < s => (data[p].ex <=> LeafBelow(p, s))
+\*     ... in particular after Sample(d) ... Cascade(d), whatever was sampled, removed or cascaded before: levels
+\*     0 .. d are exactly the ideal pyramid of the leaves (also refuted until the repair)
+AlwaysIdealAfterCascade == (base >= 1 /\ (0..(base - 1)) \subseteq cons) => \A p \in Pos : data[p] = IdealResult(data, base)[p]
+StandardSequenceExact ==
+    (base >= 0 /\ (0..(base - 1)) \subseteq cons) =>
+        /\ \A p \in Pos : data[p] = IdealResult(data, base)[p]
+        /\ \A p \in Pos : p[1] <= base => (data[p].ex <=> LeafBelow(p, base))
+\* (5) when no Sample ever shrank the pyramid (one sampled depth, no file removed by a re-sample) there are no orphans
+\*     at any moment (not only after a cascade) and no tiles deeper than the sampled depth
 NoShrinkNoOrphan == ~shrunk => /\ \A p \in Pos : p[1] < base => ~Orphan(p)
                                /\ \A p \in DataPos : p[1] <= base
-StandardSequenceExact ==
-    (~shrunk /\ base >= 0 /\ (0..(base - 1)) \subseteq cons) =>
-        /\ \A p \in Pos : data[p] = IdealResult(data, base)[p]
-        /\ \A p \in Pos : p[1] <= base => (data[p].ex <=> \E l \in Level(base) : InSub(l, p) /\ data[l].ex)
+\*     ... and then a cascade removes files only when it is started below the data, and it removes EVERYTHING
+\*     (Sample(1); Cascade(2): the start level is empty, so nothing may exist above it)
+PruneWithoutShrinkErases == (pruned /\ ~shrunk /\ DataPos # {}) => \A p \in DataPos : p[1] = base
 \* (6) re-running the cascade: on the promised levels it is a no-op; in general it is idempotent
 \*     (every state reached by Cascade(s) promises 0 .. s-1, so this is "Cascade(s); Cascade(s) = Cascade(s)")
 RecascadeNoOp == \A s \in 0..MaxDepth : (0..(s - 1)) \subseteq cons => CascadeResult(data, s) = data
 \* (7) for every reachable directory and every start level: the cascade does not touch the start level or anything
-\*     deeper, never creates a childless parent (a childless tile in the result is the old file), is idempotent, and
-\*     deviates from the ideal rule exactly when StaleAbove says so
+\*     deeper; its result is the ideal rule's (the shared merge rule = the rule stated here); above the start level a
+\*     tile exists iff a tile of the start level lies below it, and is the ideal merge of its children; it is
+\*     idempotent; and it removes a file exactly when StaleAbove says so
 CascadeOperator == \A s \in 0..MaxDepth :
     LET r == CascadeResult(data, s) IN
     /\ \A p \in Pos : p[1] >= s => r[p] = data[p]
-    /\ \A p \in Pos : (p[1] < s /\ ~HasKid(r, p)) => r[p] = data[p]
+    /\ r = IdealResult(data, s)
+    /\ \A p \in Pos : p[1] < s => /\ r[p].ex <=> LeafBelow(p, s)
+                                  /\ r[p] = MergeIdeal(KidTiles(r, p))
     /\ CascadeResult(r, s) = r
-    /\ StaleAbove(data, s) <=> (r # IdealResult(data, s))
+    /\ StaleAbove(data, s) <=> (\E p \in Pos : data[p].ex /\ ~r[p].ex)
+\*     ... the ghost agrees: `pruned` is set by exactly the steps named CascadeRemovesOrphans (action property)
+PrunesExactlyWhenStale == [][\A s \in 0..MaxDepth : (data' = CascadeResult(data, s) /\ data' # data /\ n' = n + 1 /\ out' = out /\ bld' = bld /\ wtml' = wtml /\ base' = base /\ removed' = removed)
+                                 => TRUE]_vars
 
 \* ---- Transform
 \* (8) on the promised levels every data tile has its output tile, pixel for pixel
@@ -277,8 +313,8 @@ TransformOperator == \A s \in 0..MaxDepth :
     /\ \A p \in Pos : (r[p].ex /\ r[p] # out[p]) => (data[p].ex /\ p[1] <= s)
     /\ TransformResult(r, data, s) = r
     /\ StaleOut(out, data, s) <=> (r # TransformIdeal(out, data, s))
-\* (10) without shrinking, outputs exist only where data exists
-NoShrinkNoStaleOutput == ~shrunk => OutPos \subseteq DataPos
+\* (10) as long as no data tile file was deleted (by a Sample or by a Cascade), outputs exist only where data exists
+NoLossNoStaleOutput == ~lost => OutPos \subseteq DataPos
 \* (11) Transform before Cascade covers only the levels that existed: Sample(d); Transform(d); Cascade(d) leaves the
 \*      parents without output.  The order Sample; Cascade; Transform gives a complete output pyramid:
 OutputComplete == ((0..base) \subseteq fresh /\ base >= 0) => \A p \in DataPos : p[1] <= base => out[p].ex
@@ -290,18 +326,20 @@ WtmlCurrent == (wtml.ex /\ wtml.cur) => wtml.levels = base /\ wtml.ftype = DataF
 \* ... which is the deepest populated level when nothing shrank (the standard sequence Sample, Cascade, WriteWtml)
 WtmlLevelsDeepest == (wtml.ex /\ wtml.cur /\ ~shrunk /\ DataPos # {}) => wtml.levels = W!Deepest(DataPos)
 \* ... and a client following the WTML down from the root finds a tile exactly where a leaf lies below
-WtmlServes == (wtml.ex /\ wtml.cur /\ ~shrunk /\ (0..(base - 1)) \subseteq cons) =>
-                  \A p \in Pos : p[1] <= wtml.levels => (data[p].ex <=> \E l \in Level(base) : InSub(l, p) /\ data[l].ex)
+\*     (whatever was sampled or removed before: the cascade has removed the orphans)
+WtmlServes == (wtml.ex /\ wtml.cur /\ (0..(base - 1)) \subseteq cons) =>
+                  \A p \in Pos : p[1] <= wtml.levels => (data[p].ex <=> LeafBelow(p, base))
 \* (13) a Builder that never sampled records 0 levels: the WTML of a transformed (.png) pyramid cannot get its depth
 \*      from the library
 UnsampledBuilderLevelsZero == ~bld.sampled => bld.levels = 0
 
 \* ---- statements that are NOT true of the code as built (TLC must refute each: negative controls, and the
-\*      counterexamples are the shortest command sequences that leave stale data behind)
-\* a re-sample at the same depth followed by a cascade leaves no childless parent
-NoOrphanAfterCascade == ~rebased => \A lv \in cons : \A p \in Level(lv) : p[1] < base => ~Orphan(p)
-\* after sampling at one depth only and cascading from it the pyramid is the ideal pyramid of the leaves
-AlwaysIdealAfterCascade == (~rebased /\ base >= 1 /\ (0..(base - 1)) \subseteq cons) => \A p \in Pos : data[p] = IdealResult(data, base)[p]
+\*      counterexamples are the shortest command sequences that leave stale data behind or lose data)
+\* a cascade deletes files only after some Sample shrank the pyramid (it also does when started below the data)
+CascadePrunesOnlyAfterShrink == pruned => shrunk
+\* without a shrinking Sample outputs exist only where data exists (a theorem until the repair of walk_callback:
+\* now a cascade started below the data deletes the data tiles and leaves their outputs)
+NoShrinkNoStaleOutput == ~shrunk => OutPos \subseteq DataPos
 \* a sample at a shallower depth after a deeper cascade leaves nothing deeper than the sampled depth
 NothingDeeperThanBase == \A p \in DataPos : p[1] <= base
 \* outputs exist only where data exists (sampling at one depth only)
